@@ -18,20 +18,20 @@ PROPS = {
     },
     "C03": {
         "title": "Workflow precedence and data-transfer waits are respected",
-        "lean": ["TopsimProps.C03", "TopsimProofs.Bridge.Runtime", "TopsimProps.C03Traj", "TopsimProps.L3Order"],
-        "streams": [("default", 40, 600), ("contended", 16, 300), ("big", 6, 80), ("units", 8, 100), ("batch", 24, 300)],
+        "lean": ["TopsimProps.C03", "TopsimProofs.Bridge.Runtime", "TopsimProps.C03Traj", "TopsimProps.L3Order", "TopsimProps.C03Cross"],
+        "streams": [("default", 40, 600), ("contended", 16, 300), ("big", 6, 80), ("units", 8, 100), ("batch", 24, 300), ("delays", 16, 300), ("joinrace", 16, 200)],
         "direct": ["c06"],
         "monitor": ["C03"],
     },
     "C04": {
         "title": "Everything runs exactly once and a completed run is quiescent",
-        "lean": ["TopsimProps.SysSafety", "TopsimProps.C04", "TopsimProps.C19", "TopsimProofs.Bridge.Queries", "TopsimProps.L3", "TopsimProps.C04Witness", "TopsimProps.C04Table"],
-        "streams": [("default", 32, 500), ("adversary", 24, 400), ("chaotic", 16, 300), ("edge", 16, 300), ("hotwait", 12, 200), ("batch", 12, 200)],
+        "lean": ["TopsimProps.SysSafety", "TopsimProps.C04", "TopsimProps.C19", "TopsimProofs.Bridge.Queries", "TopsimProps.L3", "TopsimProps.C04Witness", "TopsimProps.C04Table", "TopsimProps.C04Oracle"],
+        "streams": [("default", 32, 500), ("adversary", 24, 400), ("chaotic", 16, 300), ("edge", 20, 300), ("hotwait", 12, 200), ("batch", 12, 200)],
         "monitor": ["C04"],
     },
     "C05": {
         "title": "Every feasible configuration terminates",
-        "lean": ["TopsimProps.C05", "TopsimProofs.Bridge.Admission", "TopsimProofs.Bridge.BufferArith", "TopsimProofs.Bridge.Sched", "TopsimProps.C05Live", "TopsimProps.C05LiveBatch", "TopsimProps.C05LivePlan", "TopsimProps.C05Bound", "TopsimProps.C08Promised"],
+        "lean": ["TopsimProps.C05", "TopsimProofs.Bridge.Admission", "TopsimProofs.Bridge.BufferArith", "TopsimProofs.Bridge.Sched", "TopsimProps.C05Live", "TopsimProps.C05LiveBatch", "TopsimProps.C05LivePlan", "TopsimProps.C05Bound", "TopsimProps.C05BoundDelay", "TopsimProps.C05BoundBatch", "TopsimProps.C05BoundPlan", "TopsimProps.C08Promised"],
         "streams": [("feasible", 40, 800), ("tiering", 16, 200), ("samestep", 12, 150), ("edge", 32, 600), ("hotwait", 12, 200)],
         "monitor": ["C05"],
     },
@@ -125,7 +125,7 @@ PROPS = {
     "C19": {
         "title": "Idle/empty/finished queries tell the truth",
         "lean": ["TopsimProps.C19", "TopsimProofs.Bridge.Queries"],
-        "streams": [("default", 24, 300), ("chaotic", 12, 200), ("clusterops", 20, 400), ("tiering", 10, 150), ("tierback", 8, 100), ("shutdown", 12, 150), ("edge", 16, 200)],
+        "streams": [("default", 24, 300), ("chaotic", 12, 200), ("clusterops", 20, 400), ("tiering", 10, 150), ("tierback", 8, 100), ("shutdown", 12, 150), ("edge", 20, 200)],
         "monitor": ["C19"],
     },
 }
